@@ -21,10 +21,12 @@ from common import f2h, h2f, vec2p
 
 EPS = 2.0 ** -52
 
-# Open finding (known-findings.json): without force_pos_def, apply_masked uses `γ < 0` as its "scaling not
-# yet set" marker, so a pair valid on J whose ratio ⟨s,y⟩_J/⟨y,y⟩_J is negative is used in the recursion but
-# its (documented) scaling is replaced by that of an older pair — or the call fails after having modified q.
-KEY_NEGSCALE = 'C09-apply_masked-negative-curvature-scaling-from-older-pair'
+# Repaired finding C09-apply_masked-negative-curvature-scaling-from-older-pair (known-findings.json, fixed by
+# fixes/C09-apply_masked-scaling-marker.diff): apply_masked used `γ < 0` as its "scaling not yet set" marker, so
+# without force_pos_def a pair valid on J with a negative ratio ⟨s,y⟩_J/⟨y,y⟩_J had its scaling replaced by an
+# older pair's — or the call failed after having modified q.  The monitor now demands the documented scaling
+# (newest pair valid on J, whatever its sign) and "fails only when no pair is valid on J, q untouched" strictly,
+# for every parameter set; blocks G and H of `excluded_point_ops` are the regression scenario.
 
 # What the real code did at the excluded points of the theorems (a stored pair with ⟨y,s⟩ = 0: forced update,
 # scale_y(0), or min_div_fac < 0): reported in the evidence, see `extra_stage`.
@@ -233,10 +235,12 @@ def excluded_point_ops():
             usy(0, [1.0, 1.0], [1.0, 2.0]), app(1.0, q)]
     # F. min_div_fac < 0: the acceptance test itself lets ⟨y,s⟩ = 0 through
     ops += [new(2, 2, mdf=-1.0), usy(0, [1.0, 0.0], [0.0, 1.0]), 'dump', app(1.0, q)]
-    # G. open finding: force_pos_def = false, curvature step size, newest pair has negative curvature
+    # G. regression (repaired finding): force_pos_def = false, curvature step size, newest pair has negative
+    #    curvature: apply_masked on the full index set must equal apply (negative initial scaling)
     ops += [new(3, 2, fpd=0, curv=1), usy(0, [1.0, 1.0], [1.0, 2.0]), usy(0, [1.0, 0.0], [-2.0, 1.0]), 'dump',
             app(-1.0, q), appm(-1.0, q, [0, 1]), appm(-1.0, q, [0], 0)]
-    # H. … and with only that pair: apply succeeds (negative scaling), apply_masked fails *and* has modified q
+    # H. … and with only that pair: apply and apply_masked both succeed with the negative scaling
+    #    (the unrepaired code failed here *and* had modified q)
     ops += [new(3, 2, fpd=0, curv=1), usy(0, [1.0, 0.0], [-2.0, 1.0]), app(-1.0, q), appm(-1.0, q, [0, 1])]
     return ops
 
@@ -636,18 +640,17 @@ def _monitor(op, out, st):
         else:
             g0 = Fr(g)
 
-        def tag(msg):
-            if neg:
-                STATS['masked_negative_ratio'] += 1
-                return (msg + f' [force_pos_def = false and the newest pair valid on J has the negative scaling '
-                        f'⟨s,y⟩_J/⟨y,y⟩_J = {float(g0)!r}: apply() uses it, apply_masked() replaces it by an older '
-                        f"pair's or fails]", KEY_NEGSCALE)
-            return msg
+        STATS['masked_negative_ratio'] += neg
         if not ok:
-            m_ = f'apply_masked failed although {len(sub)} pairs are valid on J={J} / γ={g!r} ≥ 0'
+            # a failure is legitimate only with no pair valid on J and no non-negative step size (handled above)
+            m_ = (f'apply_masked failed although {len(sub)} pairs are valid on J={J}' if (P['curv'] or g < 0)
+                  else f'apply_masked failed although γ={g!r} ≥ 0 was supplied')
             if [f2h(v) for v in r] != [f2h(v) for v in q]:
                 m_ += f' — and it modified q: {r!r}'
-            return tag(m_)
+            if neg:
+                m_ += (f' [the newest pair valid on J has the negative scaling ⟨s,y⟩_J/⟨y,y⟩_J = {float(g0)!r}; '
+                       'apply() on the full index set uses it]')
+            return m_
         H0, H1, msg = dense_pair(sub, len(Jx))
         if msg:
             return 'monitor self-check (masked): ' + msg
@@ -655,8 +658,9 @@ def _monitor(op, out, st):
         for a, j in enumerate(Jx):
             e = sum((H0[a][b] + g0 * (H1[a][b] - H0[a][b])) * Fr(qJ[b]) for b in range(len(Jx)))
             if not math.isfinite(r[j]) or abs(Fr(r[j]) - e) > TOL * max(sc, Fr(1, 2 ** 200)):
-                return tag(f'apply_masked(q, γ={g!r}, J={J}) ≠ dense BFGS of the {len(sub)} pairs valid on J '
-                           f'restricted to J (γ₀={float(g0)!r}): component {j}: got {r[j]!r}, expected {float(e)!r}')
+                return (f'apply_masked(q, γ={g!r}, J={J}) ≠ dense BFGS of the {len(sub)} pairs valid on J '
+                        f'restricted to J with the scaling of the newest of them (γ₀={float(g0)!r}): '
+                        f'component {j}: got {r[j]!r}, expected {float(e)!r}')
         return None
     return None
 
@@ -709,7 +713,8 @@ def extra_stage(rep, broken, exe, tier):
              '(the pair is re-tested on J and skipped); '
              f'{STATS["apply_after_singular_pair_evicted"]} apply() calls after the pair had been evicted / reset were checked '
              'against the dense matrix again')
-    rep.note(f'open finding {KEY_NEGSCALE}: {STATS["masked_negative_ratio"]} apply_masked() calls hit it')
+    rep.note(f'{STATS["masked_negative_ratio"]} apply_masked() calls whose documented scaling (newest pair valid on J) is '
+             'negative (force_pos_def = false) were checked strictly against the dense operator with that scaling')
 
 
 if __name__ == '__main__':
@@ -746,7 +751,7 @@ if __name__ == '__main__':
         rule='all words of length ≤ 3 (thorough: 5) over {valid update, forced bad update, apply, reset, '
              'scale_y} for memory 1..4 (n=2, exact regime), the fixed excluded-point corpus (forced ⟨y,s⟩ = 0 / s = 0 / '
              '⟨y,s⟩ < 0 with and without CBFGS, scale_y(0), min_div_fac < 0, eviction of the singular pair, the '
-             'force_pos_def = false masked-scaling finding), then seeded random sequences of 3..200 ops '
+             'force_pos_def = false masked-scaling regression), then seeded random sequences of 3..200 ops '
              'over all op kinds (memory 1..7, n 0..5, both step-size policies, CBFGS on/off, '
              'force_pos_def on/off, 40 % with apply_masked, 60 % exact-regime dyadic inputs); '
              'distinct = distinct successful apply / apply_masked op lines',
